@@ -309,11 +309,11 @@ pub mod bytes {
 
 // dispatcher-backed iterators: concrete lengths (function-pointer fan-out)
 #[cfg(any(vcfg_x86std, vcfg_x86none, vcfg_x86alloc, vcfg_x86avx2, vcfg_x86rel))]
-inst!(it_top1_step_20, [props=C06+C14 xprops=C05 tier=quick cfg=x86std t=1500 role=memchr-iter-step uw=@MEMCHR], 3, bytes::top_step::<20>(1, true));
+inst!(it_top1_step_10, [props=C06+C14 xprops=C05 tier=quick cfg=x86std t=1500 role=memchr-iter-step uw=@MEMCHR], 3, bytes::top_step::<10>(1, true));
 #[cfg(any(vcfg_x86std, vcfg_x86none, vcfg_x86alloc, vcfg_x86avx2, vcfg_x86rel))]
-inst!(it_top2_step_18, [props=C06 xprops=C05+C14 tier=quick cfg=x86std t=1500 role=memchr2-iter-step uw=@MEMCHR], 3, bytes::top_step::<18>(2, true));
+inst!(it_top2_step_18, [props=C06 xprops=C05+C14 tier=thorough cfg=x86std t=1500 role=memchr2-iter-step uw=@MEMCHR], 3, bytes::top_step::<18>(2, true));
 #[cfg(any(vcfg_x86std, vcfg_x86none, vcfg_x86alloc, vcfg_x86avx2, vcfg_x86rel))]
-inst!(it_top3_step_18, [props=C06 xprops=C05+C14 tier=quick cfg=x86std t=1500 role=memchr3-iter-step uw=@MEMCHR], 3, bytes::top_step::<18>(3, true));
+inst!(it_top3_step_18, [props=C06 xprops=C05+C14 tier=thorough cfg=x86std t=1500 role=memchr3-iter-step uw=@MEMCHR], 3, bytes::top_step::<18>(3, true));
 #[cfg(any(vcfg_x86std, vcfg_x86none, vcfg_x86alloc, vcfg_x86avx2, vcfg_x86rel))]
 inst!(it_top1_step_40, [props=C06 xprops=C05+C14 tier=thorough cfg=x86std t=3600 role=memchr-iter-step uw=@MEMCHR], 3, bytes::top_step::<40>(1, true));
 inst!(it_top_step_generic_24, [props=C06 xprops=C05+C14 tier=quick cfg=generic t=1500 role=memchr-iter-step uw=@MEMCHR], 3, bytes_generic::top_step::<24>(3));
